@@ -1252,7 +1252,20 @@ func (p *parser) parseBlock(block text.BlockReader, parent ast.Node, pc Context)
 		if lineBreakFlags&(lineBreakHard|lineBreakVisible) == lineBreakHard|lineBreakVisible {
 			text = ast.NewTextSegment(diff)
 		} else {
-			text = ast.NewTextSegment(diff.TrimRightSpace(source))
+			trimmed := diff.TrimRightSpace(source)
+			if trimmed.IsEmpty() {
+				// trailing spaces may already have been flushed into the previous
+				// text node by an inline parser triggered by spaces
+				if last, ok := parent.LastChild().(*ast.Text); ok && last.Segment.Stop == diff.Start &&
+					!last.IsRaw() && !last.SoftLineBreak() && !last.HardLineBreak() {
+					last.Segment = last.Segment.TrimRightSpace(source)
+					last.SetSoftLineBreak(lineBreakFlags&lineBreakSoft != 0)
+					last.SetHardLineBreak(lineBreakFlags&lineBreakHard != 0)
+					block.AdvanceLine()
+					continue
+				}
+			}
+			text = ast.NewTextSegment(trimmed)
 		}
 		text.SetSoftLineBreak(lineBreakFlags&lineBreakSoft != 0)
 		text.SetHardLineBreak(lineBreakFlags&lineBreakHard != 0)
